@@ -225,4 +225,854 @@ theorem readsOf_fuel (cs : Nat) : ∀ (f g : Nat) (s : Src), s.inp.length + s.sc
         simp only
         exact ih g s' (by rw [hi, hsc]; rw [hs] at hf; simp at hf; omega) (by rw [hi, hsc]; rw [hs] at hg; simp at hg; omega)
 
+/-! ### the sink: one operation, `write_all`, `flush`, one record -/
+
+/-- What any sequence of sink operations issued at source state `at_` does: `p` is appended to the output,
+    prefixes of the two scripts are consumed, and the new log entries are stamped `at_` and account for `p`. -/
+structure Step (at_ : Nat × Nat) (k k' : Snk) (p : Bytes) : Prop where
+  out : k'.out = k.out ++ p
+  ws : ∃ u, k.ws = u ++ k'.ws
+  fs : ∃ u, k.fs = u ++ k'.fs
+  log : ∃ new, k'.log = new ++ k.log ∧ (∀ e ∈ new, e.srcPos = at_.1 ∧ e.srcReads = at_.2) ∧
+          (new.map (·.n)).sum = p.length
+  flushes : k.flushes ≤ k'.flushes
+
+theorem Step.refl (at_ : Nat × Nat) (k : Snk) : Step at_ k k [] :=
+  ⟨by simp, ⟨[], rfl⟩, ⟨[], rfl⟩, ⟨[], rfl, by simp, rfl⟩, Nat.le_refl _⟩
+
+theorem Step.trans {at_ : Nat × Nat} {k k' k'' : Snk} {p q : Bytes} (h1 : Step at_ k k' p) (h2 : Step at_ k' k'' q) :
+    Step at_ k k'' (p ++ q) := by
+  obtain ⟨u1, hu1⟩ := h1.ws
+  obtain ⟨u2, hu2⟩ := h2.ws
+  obtain ⟨v1, hv1⟩ := h1.fs
+  obtain ⟨v2, hv2⟩ := h2.fs
+  obtain ⟨n1, hn1, ha1, hs1⟩ := h1.log
+  obtain ⟨n2, hn2, ha2, hs2⟩ := h2.log
+  refine ⟨by rw [h2.out, h1.out, List.append_assoc], ⟨u1 ++ u2, by rw [hu1, hu2, List.append_assoc]⟩,
+    ⟨v1 ++ v2, by rw [hv1, hv2, List.append_assoc]⟩, ⟨n2 ++ n1, by rw [hn2, hn1, List.append_assoc], ?_, ?_⟩,
+    Nat.le_trans h1.flushes h2.flushes⟩
+  · intro e he
+    rcases List.mem_append.mp he with h | h
+    · exact ha2 e h
+    · exact ha1 e h
+  · rw [List.map_append, List.sum_append, hs1, hs2, List.length_append]; omega
+
+theorem Step.benign {at_ : Nat × Nat} {k k' : Snk} {p : Bytes} (h : Step at_ k k' p) (hb : Snk.benign k) : Snk.benign k' := by
+  obtain ⟨u, hu⟩ := h.ws
+  obtain ⟨v, hv⟩ := h.fs
+  exact ⟨fun e he => hb.1 e (by rw [hu]; exact List.mem_append_right _ he),
+         fun e he => hb.2 e (by rw [hv]; exact List.mem_append_right _ he)⟩
+
+theorem Step.faultFree {at_ : Nat × Nat} {k k' : Snk} {p : Bytes} (h : Step at_ k k' p) (hb : Snk.faultFree k) :
+    Snk.faultFree k' := by
+  obtain ⟨u, hu⟩ := h.ws
+  obtain ⟨v, hv⟩ := h.fs
+  exact ⟨fun e he => hb.1 e (by rw [hu]; exact List.mem_append_right _ he),
+         fun e he => hb.2 e (by rw [hv]; exact List.mem_append_right _ he)⟩
+
+theorem write_wrote {at_ : Nat × Nat} {k k' : Snk} {b : Bytes} {n : Nat} (h : k.write at_ b = (.wrote n, k')) :
+    n ≤ b.length ∧ Step at_ k k' (b.take n) := by
+  unfold Snk.write at h
+  split at h
+  · rename_i hws
+    simp only [Prod.mk.injEq, WrRes.wrote.injEq] at h
+    obtain ⟨h1, h2⟩ := h
+    subst h1 h2
+    refine ⟨Nat.le_refl _, ⟨by simp, ⟨[], rfl⟩, ⟨[], rfl⟩, ⟨[⟨at_.1, at_.2, b.length⟩], rfl, by simp, by simp⟩, Nat.le_refl _⟩⟩
+  · rename_i m ws hws
+    simp only [Prod.mk.injEq, WrRes.wrote.injEq] at h
+    obtain ⟨h1, h2⟩ := h
+    subst h1 h2
+    refine ⟨Nat.min_le_right _ _, ⟨rfl, ⟨[.accept m], by simp [hws]⟩, ⟨[], rfl⟩,
+      ⟨[⟨at_.1, at_.2, min m b.length⟩], rfl, by simp, by simp [List.length_take]⟩, Nat.le_refl _⟩⟩
+  · simp at h
+  · simp at h
+
+theorem write_err {at_ : Nat × Nat} {k k' : Snk} {b : Bytes} (h : k.write at_ b = (.err, k')) :
+    Step at_ k k' [] ∧ WrEv.errOther ∈ k.ws := by
+  unfold Snk.write at h
+  split at h
+  · simp at h
+  · simp at h
+  · rename_i ws hws
+    simp only [Prod.mk.injEq, true_and] at h
+    subst h
+    exact ⟨⟨by simp, ⟨[.errOther], by simp [hws]⟩, ⟨[], rfl⟩, ⟨[], rfl, by simp, rfl⟩, Nat.le_refl _⟩, by simp [hws]⟩
+  · simp at h
+
+theorem write_int {at_ : Nat × Nat} {k k' : Snk} {b : Bytes} (h : k.write at_ b = (.interrupted, k')) :
+    Step at_ k k' [] ∧ k.ws = .errInterrupted :: k'.ws := by
+  unfold Snk.write at h
+  split at h
+  · simp at h
+  · simp at h
+  · simp at h
+  · rename_i ws hws
+    simp only [Prod.mk.injEq, true_and] at h
+    subst h
+    exact ⟨⟨by simp, ⟨[.errInterrupted], by simp [hws]⟩, ⟨[], rfl⟩, ⟨[], rfl, by simp, rfl⟩, Nat.le_refl _⟩, hws⟩
+
+theorem writeAll_nil (at_ : Nat × Nat) (fuel : Nat) (k : Snk) : Snk.writeAll at_ fuel k [] = (true, k) := by
+  cases fuel <;> simp [Snk.writeAll]
+
+/-- **`write_all`, every script**: what reaches the output is a prefix of the buffer, all of it on success. -/
+theorem writeAll_step (at_ : Nat × Nat) : ∀ (fuel : Nat) (k : Snk) (b : Bytes),
+    ∃ p, Step at_ k (Snk.writeAll at_ fuel k b).2 p ∧ p <+: b ∧ ((Snk.writeAll at_ fuel k b).1 = true → p = b) := by
+  intro fuel
+  induction fuel with
+  | zero =>
+    intro k b
+    refine ⟨[], Step.refl _ _, List.nil_prefix, ?_⟩
+    simp only [Snk.writeAll, List.isEmpty_iff]
+    intro h; exact h.symm
+  | succ fuel ih =>
+    intro k b
+    unfold Snk.writeAll
+    split
+    · rename_i hb
+      refine ⟨[], Step.refl _ _, List.nil_prefix, fun _ => ?_⟩
+      simpa using hb.symm
+    · split
+      · rename_i k' hw
+        exact ⟨[], (write_err hw).1, List.nil_prefix, by simp⟩
+      · rename_i k' hw
+        obtain ⟨p, hs, hp, hok⟩ := ih k' b
+        exact ⟨p, by simpa using (write_int hw).1.trans hs, hp, hok⟩
+      · rename_i n k' hw
+        obtain ⟨hn, hst⟩ := write_wrote hw
+        split
+        · exact ⟨b.take n, hst, List.take_prefix _ _, by simp⟩
+        · obtain ⟨p, hs, hp, hok⟩ := ih k' (b.drop n)
+          refine ⟨b.take n ++ p, hst.trans hs, ?_, ?_⟩
+          · obtain ⟨t, ht⟩ := hp
+            exact ⟨t, by rw [List.append_assoc, ht, List.take_append_drop]⟩
+          · intro h
+            rw [hok h, List.take_append_drop]
+
+/-- **`write_all`, benign script**: succeeds. -/
+theorem writeAll_benign (at_ : Nat × Nat) : ∀ (fuel : Nat) (k : Snk) (b : Bytes), WsBenign k.ws →
+    k.ws.length + 1 ≤ fuel → (Snk.writeAll at_ fuel k b).1 = true := by
+  intro fuel
+  induction fuel with
+  | zero => intro k b _ h; omega
+  | succ fuel ih =>
+    intro k b hb hf
+    unfold Snk.writeAll
+    split
+    · rfl
+    · rename_i hne
+      have hlen : 0 < b.length := by
+        cases b with
+        | nil => simp at hne
+        | cons _ _ => simp
+      split
+      · rename_i k' hw
+        rcases hb _ (write_err hw).2 with h | ⟨n, h, _⟩ <;> cases h
+      · rename_i k' hw
+        have hws := (write_int hw).2
+        refine ih k' b (fun e he => hb e (by rw [hws]; exact List.mem_cons_of_mem _ he)) ?_
+        rw [hws] at hf; simp at hf; omega
+      · rename_i n k' hw
+        unfold Snk.write at hw
+        split at hw
+        · rename_i hws
+          simp only [Prod.mk.injEq, WrRes.wrote.injEq] at hw
+          obtain ⟨h1, h2⟩ := hw
+          subst h1 h2
+          rw [if_neg (by omega), List.drop_length, writeAll_nil]
+        · rename_i m ws hws
+          simp only [Prod.mk.injEq, WrRes.wrote.injEq] at hw
+          obtain ⟨h1, h2⟩ := hw
+          subst h1 h2
+          have hm : 1 ≤ m := by
+            rcases hb (.accept m) (by simp [hws]) with h | ⟨n, h, hn⟩
+            · cases h
+            · cases h; exact hn
+          rw [if_neg (by omega)]
+          refine ih _ _ (fun e he => hb e (by rw [hws]; exact List.mem_cons_of_mem _ he)) ?_
+          rw [hws] at hf; simp at hf ⊢; omega
+        · simp at hw
+        · simp at hw
+
+theorem flush_step (at_ : Nat × Nat) (k : Snk) : Step at_ k k.flush.2 [] := by
+  unfold Snk.flush
+  split
+  · exact ⟨by simp, ⟨[], rfl⟩, ⟨[], by simp⟩, ⟨[], rfl, by simp, rfl⟩, by simp⟩
+  · rename_i fs hfs
+    exact ⟨by simp, ⟨[], rfl⟩, ⟨[.ok], by simp [hfs]⟩, ⟨[], rfl, by simp, rfl⟩, by simp⟩
+  · rename_i e fs _ hfs
+    exact ⟨by simp, ⟨[], rfl⟩, ⟨[e], by simp [hfs]⟩, ⟨[], rfl, by simp, rfl⟩, by simp⟩
+
+theorem flush_ok (k : Snk) (h : FsOk k.fs) : k.flush.1 = true := by
+  unfold Snk.flush
+  split
+  · rfl
+  · rfl
+  · rename_i e fs hne hfs
+    have := h e (by simp [hfs])
+    subst this
+    exact absurd rfl hne
+
+theorem flush_false_not_ok (k : Snk) (h : k.flush.1 = false) : ¬ FsOk k.fs := by
+  intro hok; rw [flush_ok k hok] at h; cases h
+
+/-- **one record, every script**: header ‖ body reaches the output up to a prefix, all of it on success. -/
+theorem writeRecord_step (at_ : Nat × Nat) (k : Snk) (hdr body : Bytes) :
+    ∃ p, Step at_ k (writeRecord k at_ hdr body).2 p ∧ p <+: hdr ++ body ∧
+      ((writeRecord k at_ hdr body).1 = true → p = hdr ++ body) := by
+  obtain ⟨p1, hs1, hp1, hok1⟩ := writeAll_step at_ (k.wfuel hdr) k hdr
+  unfold writeRecord
+  split
+  · rename_i k1 h1
+    rw [h1] at hs1
+    exact ⟨p1, hs1, List.IsPrefix.trans hp1 (List.prefix_append _ _), by simp⟩
+  · rename_i k1 h1
+    rw [h1] at hs1 hok1
+    have hp1e : p1 = hdr := hok1 rfl
+    subst hp1e
+    obtain ⟨p2, hs2, hp2, hok2⟩ := writeAll_step at_ (k1.wfuel body) k1 body
+    split
+    · rename_i k2 h2
+      rw [h2] at hs2
+      exact ⟨p1 ++ p2, hs1.trans hs2, (List.prefix_append_right_inj _).mpr hp2, by simp⟩
+    · rename_i k2 h2
+      rw [h2] at hs2 hok2
+      have hp2e : p2 = body := hok2 rfl
+      subst hp2e
+      refine ⟨p1 ++ p2, ?_, List.prefix_refl _, fun _ => rfl⟩
+      simpa using (hs1.trans hs2).trans (flush_step at_ k2)
+
+/-- **one record, benign sink**: succeeds. -/
+theorem writeRecord_benign (at_ : Nat × Nat) (k : Snk) (hdr body : Bytes) (hb : Snk.benign k) :
+    (writeRecord k at_ hdr body).1 = true := by
+  have h1 := writeAll_benign at_ (k.wfuel hdr) k hdr hb.1 (by simp [Snk.wfuel])
+  obtain ⟨p1, hs1, _, _⟩ := writeAll_step at_ (k.wfuel hdr) k hdr
+  unfold writeRecord
+  split
+  · rename_i k1 e1; rw [e1] at h1; cases h1
+  · rename_i k1 e1
+    rw [e1] at hs1
+    have hb1 := hs1.benign hb
+    have h2 := writeAll_benign at_ (k1.wfuel body) k1 body hb1.1 (by simp [Snk.wfuel])
+    obtain ⟨p2, hs2, _, _⟩ := writeAll_step at_ (k1.wfuel body) k1 body
+    split
+    · rename_i k2 e2; rw [e2] at h2; cases h2
+    · rename_i k2 e2
+      rw [e2] at hs2
+      exact flush_ok k2 (hs2.benign hb1).2
+
+/-! ### the look-ahead loop: case lemmas for both levels -/
+
+/-- the `write_all; write_all; flush` of record `ctr` as `encLoopIO` issues it (`s'` = source after the read
+    that decided the flag) -/
+def recW (A : Aead) (key aad : Bytes) (ctr : Nat) (last : Bool) (prev : Bytes) (s' : Src) (k : Snk) : Bool × Snk :=
+  writeRecord k (s'.pos, s'.nreads) (be64 ctr ++ be32 (if last then 1 else 0) ++ be32 prev.length)
+    (A.enc key ctr (aad ++ be32 (if last then 1 else 0) ++ be32 prev.length) prev)
+
+theorem recW_step (A : Aead) (key aad : Bytes) (ctr : Nat) (last : Bool) (prev : Bytes) (s' : Src) (k : Snk) :
+    ∃ p, Step (s'.pos, s'.nreads) k (recW A key aad ctr last prev s' k).2 p ∧
+      p <+: record A key aad (be64 ctr) ctr last prev ∧
+      ((recW A key aad ctr last prev s' k).1 = true → p = record A key aad (be64 ctr) ctr last prev) :=
+  writeRecord_step _ k _ _
+
+theorem recW_benign (A : Aead) (key aad : Bytes) (ctr : Nat) (last : Bool) (prev : Bytes) (s' : Src) (k : Snk)
+    (hb : Snk.benign k) : (recW A key aad ctr last prev s' k).1 = true :=
+  writeRecord_benign _ k _ _ hb
+
+section loop
+variable (A : Aead) (key aad : Bytes) (cs : Nat)
+
+theorem encLoopIO_err {fuel ctr : Nat} {prev : Bytes} {done : Bool} {s s' : Src} {k : Snk}
+    (h : s.read cs = (.err, s')) : encLoopIO A key aad cs (fuel+1) ctr prev done s k = (.ioRead, s', k) := by
+  simp only [encLoopIO, h]
+
+theorem encLoopIO_int {fuel ctr : Nat} {prev : Bytes} {done : Bool} {s s' : Src} {k : Snk}
+    (h : s.read cs = (.interrupted, s')) : encLoopIO A key aad cs (fuel+1) ctr prev done s k = (.ioRead, s', k) := by
+  simp only [encLoopIO, h]
+
+theorem encLoopIO_unexp {fuel ctr : Nat} {prev r : Bytes} {s s' : Src} {k : Snk}
+    (h : s.read cs = (.got r, s')) (hr : r.length ≠ 0) :
+    encLoopIO A key aad cs (fuel+1) ctr prev true s k = (.unexpectedData, s', k) := by
+  simp [encLoopIO, h, hr]
+
+theorem encLoopIO_last {fuel ctr : Nat} {prev r : Bytes} {done : Bool} {s s' : Src} {k : Snk}
+    (h : s.read cs = (.got r, s')) (hr : r.length = 0) :
+    encLoopIO A key aad cs (fuel+1) ctr prev done s k =
+      (if (recW A key aad ctr true prev s' k).1 then .ok else .ioWrite, s', (recW A key aad ctr true prev s' k).2) := by
+  simp only [encLoopIO, h, hr, recW]
+  simp only [ne_eq, not_true_eq_false, decide_false, Bool.false_and, Bool.false_eq_true, if_false, beq_self_eq_true,
+    Bool.or_true, if_true]
+  generalize writeRecord k _ _ _ = w
+  obtain ⟨b, k2⟩ := w
+  cases b <;> simp
+
+theorem encLoopIO_more {fuel ctr : Nat} {prev r : Bytes} {s s' : Src} {k : Snk}
+    (h : s.read cs = (.got r, s')) (hr : r.length ≠ 0) :
+    encLoopIO A key aad cs (fuel+1) ctr prev false s k =
+      if (recW A key aad ctr false prev s' k).1 then
+        encLoopIO A key aad cs fuel (ctr+1) r false s' (recW A key aad ctr false prev s' k).2
+      else (.ioWrite, s', (recW A key aad ctr false prev s' k).2) := by
+  have hb : (r.length == 0) = false := by simpa using hr
+  simp only [encLoopIO, h, recW, hb]
+  simp only [Bool.and_false, Bool.false_eq_true, if_false, Bool.or_false]
+  generalize writeRecord k _ _ _ = w
+  obtain ⟨b, k2⟩ := w
+  cases b <;> simp
+
+theorem encLoop_last {ctr : Nat} {prev r : Bytes} {done : Bool} {rs : List Bytes} (hr : r.length = 0) :
+    encLoop A key aad ctr prev done (r :: rs) = (record A key aad (be64 ctr) ctr true prev, .ok) := by
+  simp [encLoop, hr]
+
+theorem encLoop_unexp {ctr : Nat} {prev r : Bytes} {rs : List Bytes} (hr : r.length ≠ 0) :
+    encLoop A key aad ctr prev true (r :: rs) = ([], .unexpectedData) := by
+  simp [encLoop, hr]
+
+theorem encLoop_more {ctr : Nat} {prev r : Bytes} {rs : List Bytes} (hr : r.length ≠ 0) :
+    encLoop A key aad ctr prev false (r :: rs) =
+      (record A key aad (be64 ctr) ctr false prev ++ (encLoop A key aad (ctr+1) r false rs).1,
+       (encLoop A key aad (ctr+1) r false rs).2) := by
+  have hb : (r.length == 0) = false := by simpa using hr
+  simp [encLoop, hr, hb]
+
+theorem readsOf_got_nil {f : Nat} {s s' : Src} {r : Bytes} (h : s.read cs = (.got r, s')) (hr : r.length = 0) :
+    Src.readsOf cs (f+1) s = [r] := by
+  simp [Src.readsOf, h, hr]
+
+theorem readsOf_got_cons {f : Nat} {s s' : Src} {r : Bytes} (h : s.read cs = (.got r, s')) (hr : r.length ≠ 0) :
+    Src.readsOf cs (f+1) s = r :: Src.readsOf cs f s' := by
+  simp [Src.readsOf, h, hr]
+
+/-! ### (c) error classification -/
+
+/-- the chunk loop ends in one of four ways -/
+theorem encLoopIO_res : ∀ (fuel ctr : Nat) (prev : Bytes) (done : Bool) (s : Src) (k : Snk),
+    (encLoopIO A key aad cs fuel ctr prev done s k).1 = .ok ∨ (encLoopIO A key aad cs fuel ctr prev done s k).1 = .ioRead ∨
+    (encLoopIO A key aad cs fuel ctr prev done s k).1 = .ioWrite ∨
+    (encLoopIO A key aad cs fuel ctr prev done s k).1 = .unexpectedData := by
+  intro fuel
+  induction fuel with
+  | zero => intro _ _ _ _ _; simp [encLoopIO]
+  | succ fuel ih =>
+    intro ctr prev done s k
+    cases hread : s.read cs with
+    | mk rr s' =>
+      cases rr with
+      | err => rw [encLoopIO_err A key aad cs hread]; simp
+      | interrupted => rw [encLoopIO_int A key aad cs hread]; simp
+      | got r =>
+        by_cases hr : r.length = 0
+        · rw [encLoopIO_last A key aad cs hread hr]
+          cases (recW A key aad ctr true prev s' k).1 <;> simp
+        · cases done with
+          | true => rw [encLoopIO_unexp A key aad cs hread hr]; simp
+          | false =>
+            rw [encLoopIO_more A key aad cs hread hr]
+            cases (recW A key aad ctr false prev s' k).1
+            · simp
+            · simpa using ih (ctr+1) r false s' _
+
+/-- `IORead` comes from an error event of the source script (never from running out of fuel) -/
+theorem encLoopIO_ioRead : ∀ (fuel ctr : Nat) (prev : Bytes) (done : Bool) (s : Src) (k : Snk),
+    s.inp.length + s.script.length + 1 ≤ fuel →
+    (encLoopIO A key aad cs fuel ctr prev done s k).1 = .ioRead → Src.hasErr s := by
+  intro fuel
+  induction fuel with
+  | zero => intro _ _ _ s _ h; omega
+  | succ fuel ih =>
+    intro ctr prev done s k hf hres
+    cases hread : s.read cs with
+    | mk rr s' =>
+      cases rr with
+      | err =>
+        obtain ⟨sc, hs, _⟩ := read_err hread
+        exact ⟨.errOther, by simp [hs], Or.inl rfl⟩
+      | interrupted =>
+        obtain ⟨sc, hs, _⟩ := read_int hread
+        exact ⟨.errInterrupted, by simp [hs], Or.inr rfl⟩
+      | got r =>
+        by_cases hr : r.length = 0
+        · rw [encLoopIO_last A key aad cs hread hr] at hres
+          cases h : (recW A key aad ctr true prev s' k).1 <;> simp [h] at hres
+        · cases done with
+          | true => rw [encLoopIO_unexp A key aad cs hread hr] at hres; simp at hres
+          | false =>
+            rw [encLoopIO_more A key aad cs hread hr] at hres
+            cases h : (recW A key aad ctr false prev s' k).1
+            · simp [h] at hres
+            · simp only [h, if_true] at hres
+              have hm := read_got_measure hread hr
+              obtain ⟨e, he, hee⟩ := ih (ctr+1) r false s' _ (by omega) hres
+              obtain ⟨j, _, _, _, hsc, _⟩ := read_got hread
+              rw [hsc] at he
+              exact ⟨e, List.mem_of_mem_tail he, hee⟩
+
+/-- `IOWrite` needs a sink event that is not benign -/
+theorem encLoopIO_ioWrite : ∀ (fuel ctr : Nat) (prev : Bytes) (done : Bool) (s : Src) (k : Snk),
+    Snk.benign k → (encLoopIO A key aad cs fuel ctr prev done s k).1 ≠ .ioWrite := by
+  intro fuel
+  induction fuel with
+  | zero => intro _ _ _ _ _ _; simp [encLoopIO]
+  | succ fuel ih =>
+    intro ctr prev done s k hb
+    cases hread : s.read cs with
+    | mk rr s' =>
+      cases rr with
+      | err => rw [encLoopIO_err A key aad cs hread]; simp
+      | interrupted => rw [encLoopIO_int A key aad cs hread]; simp
+      | got r =>
+        by_cases hr : r.length = 0
+        · rw [encLoopIO_last A key aad cs hread hr, recW_benign A key aad ctr true prev s' k hb]; simp
+        · cases done with
+          | true => rw [encLoopIO_unexp A key aad cs hread hr]; simp
+          | false =>
+            rw [encLoopIO_more A key aad cs hread hr, recW_benign A key aad ctr false prev s' k hb]
+            simp only [if_true]
+            obtain ⟨p, hst, _⟩ := recW_step A key aad ctr false prev s' k
+            exact ih (ctr+1) r false s' _ (hst.benign hb)
+
+/-- `UnexpectedData` arises in exactly one way: the look-ahead flag is already set and the next read delivers data;
+    nothing is written in that call -/
+theorem encLoopIO_unexpected : ∀ (fuel ctr : Nat) (prev : Bytes) (done : Bool) (s : Src) (k : Snk),
+    (encLoopIO A key aad cs fuel ctr prev done s k).1 = .unexpectedData →
+    done = true ∧ ∃ r s', s.read cs = (.got r, s') ∧ r.length ≠ 0 ∧
+      encLoopIO A key aad cs fuel ctr prev done s k = (.unexpectedData, s', k) := by
+  intro fuel
+  induction fuel with
+  | zero => intro _ _ _ _ _ h; simp [encLoopIO] at h
+  | succ fuel ih =>
+    intro ctr prev done s k hres
+    cases hread : s.read cs with
+    | mk rr s' =>
+      cases rr with
+      | err => rw [encLoopIO_err A key aad cs hread] at hres; simp at hres
+      | interrupted => rw [encLoopIO_int A key aad cs hread] at hres; simp at hres
+      | got r =>
+        by_cases hr : r.length = 0
+        · rw [encLoopIO_last A key aad cs hread hr] at hres
+          cases h : (recW A key aad ctr true prev s' k).1 <;> simp [h] at hres
+        · cases done with
+          | true => exact ⟨rfl, r, s', rfl, hr, encLoopIO_unexp A key aad cs hread hr⟩
+          | false =>
+            rw [encLoopIO_more A key aad cs hread hr] at hres
+            cases h : (recW A key aad ctr false prev s' k).1
+            · simp [h] at hres
+            · simp only [h, if_true] at hres
+              have := (ih (ctr+1) r false s' _ hres).1
+              cases this
+
+/-! ### (b) prefix property, every script -/
+
+/-- What the I/O loop appends to the sink is a prefix of what the pure loop emits on the source's read schedule,
+    and all of it when the loop reports success. No hypothesis on the scripts. -/
+theorem encLoopIO_prefix : ∀ (fuel ctr : Nat) (prev : Bytes) (done : Bool) (s : Src) (k : Snk) (f2 : Nat),
+    s.inp.length + s.script.length + 1 ≤ f2 →
+    ∃ p, (encLoopIO A key aad cs fuel ctr prev done s k).2.2.out = k.out ++ p ∧
+      p <+: (encLoop A key aad ctr prev done (Src.readsOf cs f2 s)).1 ∧
+      ((encLoopIO A key aad cs fuel ctr prev done s k).1 = .ok →
+        p = (encLoop A key aad ctr prev done (Src.readsOf cs f2 s)).1) := by
+  intro fuel
+  induction fuel with
+  | zero => intro _ _ _ _ k _ _; exact ⟨[], by simp [encLoopIO], List.nil_prefix, by simp [encLoopIO]⟩
+  | succ fuel ih =>
+    intro ctr prev done s k f2 hf2
+    obtain ⟨f2, rfl⟩ : ∃ g, f2 = g + 1 := ⟨f2 - 1, by omega⟩
+    cases hread : s.read cs with
+    | mk rr s' =>
+      cases rr with
+      | err => rw [encLoopIO_err A key aad cs hread]; exact ⟨[], by simp, List.nil_prefix, by simp⟩
+      | interrupted => rw [encLoopIO_int A key aad cs hread]; exact ⟨[], by simp, List.nil_prefix, by simp⟩
+      | got r =>
+        by_cases hr : r.length = 0
+        · rw [encLoopIO_last A key aad cs hread hr, readsOf_got_nil cs hread hr, encLoop_last A key aad hr]
+          obtain ⟨p, hst, hp, hok⟩ := recW_step A key aad ctr true prev s' k
+          refine ⟨p, hst.out, hp, ?_⟩
+          cases h : (recW A key aad ctr true prev s' k).1
+          · simp
+          · intro _; exact hok h
+        · rw [readsOf_got_cons cs hread hr]
+          cases done with
+          | true =>
+            rw [encLoopIO_unexp A key aad cs hread hr]
+            exact ⟨[], by simp, List.nil_prefix, by simp⟩
+          | false =>
+            rw [encLoopIO_more A key aad cs hread hr, encLoop_more A key aad hr]
+            obtain ⟨p, hst, hp, hok⟩ := recW_step A key aad ctr false prev s' k
+            cases h : (recW A key aad ctr false prev s' k).1
+            · simp only [Bool.false_eq_true, if_false]
+              exact ⟨p, hst.out, List.IsPrefix.trans hp (List.prefix_append _ _), by simp⟩
+            · simp only [if_true]
+              have hm := read_got_measure hread hr
+              obtain ⟨q, hq1, hq2, hq3⟩ := ih (ctr+1) r false s' (recW A key aad ctr false prev s' k).2 f2 (by omega)
+              have hpe := hok h
+              refine ⟨p ++ q, by rw [hq1, hst.out, List.append_assoc], ?_, ?_⟩
+              · rw [hpe]; exact (List.prefix_append_right_inj _).mpr hq2
+              · intro hres; rw [hpe, hq3 hres]
+
+end loop
+
+/-! ### `encrypt_chunks` as a whole -/
+
+section top
+variable (A : Aead) (key aad : Bytes) (cs : Nat)
+
+theorem encryptChunksIO_err {s s' : Src} {k : Snk} (h : s.read cs = (.err, s')) :
+    encryptChunksIO A key aad cs s k = (.ioRead, s', k) := by
+  simp only [encryptChunksIO, h]
+
+theorem encryptChunksIO_int {s s' : Src} {k : Snk} (h : s.read cs = (.interrupted, s')) :
+    encryptChunksIO A key aad cs s k = (.ioRead, s', k) := by
+  simp only [encryptChunksIO, h]
+
+theorem encryptChunksIO_got {s s' : Src} {k : Snk} {r : Bytes} (h : s.read cs = (.got r, s')) :
+    encryptChunksIO A key aad cs s k =
+      encLoopIO A key aad cs ((s'.inp.length + s'.script.length + 1) + 1) 0 r (r.length == 0) s' k := by
+  simp only [encryptChunksIO, h]
+
+theorem reads_got_nil {s s' : Src} {r : Bytes} (h : s.read cs = (.got r, s')) (hr : r.length = 0) :
+    Src.reads cs s = [r] := readsOf_got_nil cs h hr
+
+theorem reads_got_cons {s s' : Src} {r : Bytes} (h : s.read cs = (.got r, s')) (hr : r.length ≠ 0) :
+    Src.reads cs s = r :: Src.readsOf cs (s.inp.length + s.script.length) s' := readsOf_got_cons cs h hr
+
+/-- (c) `encrypt_chunks` ends in one of four ways -/
+theorem encryptChunksIO_res (s : Src) (k : Snk) :
+    (encryptChunksIO A key aad cs s k).1 = .ok ∨ (encryptChunksIO A key aad cs s k).1 = .ioRead ∨
+    (encryptChunksIO A key aad cs s k).1 = .ioWrite ∨ (encryptChunksIO A key aad cs s k).1 = .unexpectedData := by
+  cases hread : s.read cs with
+  | mk rr s' =>
+    cases rr with
+    | err => rw [encryptChunksIO_err A key aad cs hread]; simp
+    | interrupted => rw [encryptChunksIO_int A key aad cs hread]; simp
+    | got r => rw [encryptChunksIO_got A key aad cs hread]; exact encLoopIO_res A key aad cs _ _ _ _ _ _
+
+/-- (c) `IORead` ⇒ the source script contains an error or `Interrupted` event -/
+theorem encryptChunksIO_ioRead (s : Src) (k : Snk) (h : (encryptChunksIO A key aad cs s k).1 = .ioRead) :
+    Src.hasErr s := by
+  cases hread : s.read cs with
+  | mk rr s' =>
+    cases rr with
+    | err =>
+      obtain ⟨sc, hs, _⟩ := read_err hread
+      exact ⟨.errOther, by simp [hs], Or.inl rfl⟩
+    | interrupted =>
+      obtain ⟨sc, hs, _⟩ := read_int hread
+      exact ⟨.errInterrupted, by simp [hs], Or.inr rfl⟩
+    | got r =>
+      rw [encryptChunksIO_got A key aad cs hread] at h
+      obtain ⟨e, he, hee⟩ := encLoopIO_ioRead A key aad cs _ _ _ _ _ _ (by omega) h
+      obtain ⟨j, _, _, _, hsc, _⟩ := read_got hread
+      rw [hsc] at he
+      exact ⟨e, List.mem_of_mem_tail he, hee⟩
+
+/-- (c) `IOWrite` ⇒ the sink scripts are not benign (a hard error, a zero-length accept, or a failing flush) -/
+theorem encryptChunksIO_ioWrite (s : Src) (k : Snk) (h : (encryptChunksIO A key aad cs s k).1 = .ioWrite) :
+    ¬ Snk.benign k := by
+  intro hb
+  cases hread : s.read cs with
+  | mk rr s' =>
+    cases rr with
+    | err => rw [encryptChunksIO_err A key aad cs hread] at h; simp at h
+    | interrupted => rw [encryptChunksIO_int A key aad cs hread] at h; simp at h
+    | got r =>
+      rw [encryptChunksIO_got A key aad cs hread] at h
+      exact encLoopIO_ioWrite A key aad cs _ _ _ _ _ _ hb h
+
+/-- (c) `UnexpectedData` ⇒ the first read was empty and the second delivered data; nothing was written -/
+theorem encryptChunksIO_unexpected (s : Src) (k : Snk) (h : (encryptChunksIO A key aad cs s k).1 = .unexpectedData) :
+    ∃ r0 s1 r s2, s.read cs = (.got r0, s1) ∧ r0.length = 0 ∧ s1.read cs = (.got r, s2) ∧ r.length ≠ 0 ∧
+      encryptChunksIO A key aad cs s k = (.unexpectedData, s2, k) := by
+  cases hread : s.read cs with
+  | mk rr s' =>
+    cases rr with
+    | err => rw [encryptChunksIO_err A key aad cs hread] at h; simp at h
+    | interrupted => rw [encryptChunksIO_int A key aad cs hread] at h; simp at h
+    | got r0 =>
+      rw [encryptChunksIO_got A key aad cs hread] at h ⊢
+      obtain ⟨hd, r, s2, h1, h2, h3⟩ := encLoopIO_unexpected A key aad cs _ _ _ _ _ _ h
+      exact ⟨r0, s', r, s2, rfl, by simpa using hd, h1, h2, h3⟩
+
+/-- (c) a fault-free source never produces `UnexpectedData` -/
+theorem encryptChunksIO_no_unexpected (hcs : 0 < cs) (s : Src) (k : Snk) (hff : Src.faultFree s) :
+    (encryptChunksIO A key aad cs s k).1 ≠ .unexpectedData := by
+  intro h
+  obtain ⟨r0, s1, r, s2, h0, hr0, h1, hr, _⟩ := encryptChunksIO_unexpected A key aad cs s k h
+  obtain ⟨j, _, hrj, hi, _, _, _, hpos⟩ := read_got h0
+  have hj := hpos hff hcs
+  obtain ⟨j', _, hrj', _⟩ := read_got h1
+  rw [hrj, List.length_take] at hr0
+  rw [hrj', hi, List.length_take, List.length_drop] at hr
+  omega
+
+/-- **(b) prefix property, every source and sink script.** What `encrypt_chunks` appends to the sink is a prefix
+    of the pure-level output for the source's read schedule (error events deleted), and the whole of it when the
+    call reports success. -/
+theorem encryptChunksIO_prefix (s : Src) (k : Snk) :
+    ∃ p, (encryptChunksIO A key aad cs s k).2.2.out = k.out ++ p ∧
+      p <+: (encryptChunks A key aad (Src.reads cs s)).1 ∧
+      ((encryptChunksIO A key aad cs s k).1 = .ok → p = (encryptChunks A key aad (Src.reads cs s)).1) := by
+  cases hread : s.read cs with
+  | mk rr s' =>
+    cases rr with
+    | err => rw [encryptChunksIO_err A key aad cs hread]; exact ⟨[], by simp, List.nil_prefix, by simp⟩
+    | interrupted => rw [encryptChunksIO_int A key aad cs hread]; exact ⟨[], by simp, List.nil_prefix, by simp⟩
+    | got r =>
+      rw [encryptChunksIO_got A key aad cs hread]
+      by_cases hr : r.length = 0
+      · -- empty input: one more read decides between the single empty record and `UnexpectedData`
+        have hb : (r.length == 0) = true := by simpa using hr
+        rw [reads_got_nil cs hread hr, hb]
+        have hpure : (encryptChunks A key aad [r]).1 = record A key aad (be64 0) 0 true r := by
+          simp [encryptChunks, encLoop]
+        rw [hpure]
+        cases hread1 : s'.read cs with
+        | mk rr1 s1 =>
+          cases rr1 with
+          | err => rw [encLoopIO_err A key aad cs hread1]; exact ⟨[], by simp, List.nil_prefix, by simp⟩
+          | interrupted => rw [encLoopIO_int A key aad cs hread1]; exact ⟨[], by simp, List.nil_prefix, by simp⟩
+          | got r1 =>
+            by_cases hr1 : r1.length = 0
+            · rw [encLoopIO_last A key aad cs hread1 hr1]
+              obtain ⟨p, hst, hp, hok⟩ := recW_step A key aad 0 true r s1 k
+              refine ⟨p, hst.out, hp, ?_⟩
+              cases h : (recW A key aad 0 true r s1 k).1
+              · simp
+              · intro _; exact hok h
+            · rw [encLoopIO_unexp A key aad cs hread1 hr1]
+              exact ⟨[], by simp, List.nil_prefix, by simp⟩
+      · have hb : (r.length == 0) = false := by simpa using hr
+        have hm := read_got_measure hread hr
+        rw [reads_got_cons cs hread hr, hb]
+        simp only [encryptChunks, hb]
+        exact encLoopIO_prefix A key aad cs _ 0 r false s' k _ (by omega)
+
+/-- the pure level always succeeds on a read schedule -/
+theorem encryptChunks_reads (s : Src) :
+    encryptChunks A key aad (Src.reads cs s) = (serialize A key aad be64 0 (fileChunks (Src.reads cs s)), .ok) :=
+  encryptChunks_eq A key aad _ (readsOf_wf cs _ s)
+
+/-- **(a) fault-free refinement.** Source script all `data n` with `1 ≤ n`, sink benign: the I/O level computes
+    exactly the pure level on the source's read schedule. -/
+theorem encryptChunksIO_faultFree (hcs : 0 < cs) (s : Src) (k : Snk) (hs : Src.faultFree s) (hk : Snk.benign k) :
+    (encryptChunksIO A key aad cs s k).1 = (encryptChunks A key aad (Src.reads cs s)).2 ∧
+    (encryptChunksIO A key aad cs s k).2.2.out = k.out ++ (encryptChunks A key aad (Src.reads cs s)).1 := by
+  have hok : (encryptChunksIO A key aad cs s k).1 = .ok := by
+    rcases encryptChunksIO_res A key aad cs s k with h | h | h | h
+    · exact h
+    · exact absurd (encryptChunksIO_ioRead A key aad cs s k h) hs.not_hasErr
+    · exact absurd hk (encryptChunksIO_ioWrite A key aad cs s k h)
+    · exact absurd h (encryptChunksIO_no_unexpected A key aad cs hcs s k hs)
+  obtain ⟨p, hp1, _, hp3⟩ := encryptChunksIO_prefix A key aad cs s k
+  refine ⟨?_, by rw [hp1, hp3 hok]⟩
+  rw [hok, encryptChunks_reads]
+
+/-- (a) the read schedule of any source: well-formed, every read at most `cs` bytes -/
+theorem reads_wf (s : Src) : wellFormedReads (Src.reads cs s) := readsOf_wf cs _ s
+theorem reads_le (s : Src) : ∀ r ∈ Src.reads cs s, r.length ≤ cs := readsOf_le cs _ s
+/-- (a) the read schedule of a fault-free source is a partition of its input -/
+theorem reads_flatten (hcs : 0 < cs) (s : Src) (hs : Src.faultFree s) : (Src.reads cs s).flatten = s.inp :=
+  readsOf_flatten cs hcs _ s hs (Nat.le_refl _)
+
+end top
+
+/-! ### (a) corollary: output length -/
+
+/-- number of non-empty reads in a schedule -/
+def numNonEmpty (reads : List Bytes) : Nat := (reads.filter (fun r => r.length != 0)).length
+
+theorem chunksOf_length (reads : List Bytes) (hwf : wellFormedReads reads) :
+    (chunksOf reads).length = numNonEmpty reads := by
+  induction reads with
+  | nil => rfl
+  | cons r rs ih =>
+    by_cases hr : r.length = 0
+    · have hrs : rs = [] := hwf.1 hr
+      subst hrs
+      simp [chunksOf, numNonEmpty, hr]
+    · have := ih (hwf.2 hr)
+      simp only [numNonEmpty] at this ⊢
+      simp [chunksOf, hr, this]
+
+theorem fileChunks_length (reads : List Bytes) (hwf : wellFormedReads reads) :
+    (fileChunks reads).length = max 1 (numNonEmpty reads) := by
+  rw [← chunksOf_length reads hwf]
+  unfold fileChunks
+  split
+  · rename_i h; simp [h]
+  · rename_i h
+    cases hc : chunksOf reads with
+    | nil => exact absurd hc h
+    | cons _ _ => simp
+
+/-- (a) corollary: 32 bytes of framing per record, at least one record -/
+theorem encryptChunksIO_length (A : Aead) (hA : A.Lawful) (key aad : Bytes) (hkey : key.length = 32) (cs : Nat)
+    (hcs : 0 < cs) (s : Src) (k : Snk) (hs : Src.faultFree s) (hk : Snk.benign k) :
+    (encryptChunksIO A key aad cs s k).2.2.out.length =
+      k.out.length + 32 * max 1 (numNonEmpty (Src.reads cs s)) + s.inp.length := by
+  rw [(encryptChunksIO_faultFree A key aad cs hcs s k hs hk).2, encryptChunks_reads, List.length_append,
+    serialize_length A hA key aad hkey be64 be64_length, fileChunks_join _ (reads_wf cs s),
+    fileChunks_length _ (reads_wf cs s), reads_flatten cs hcs s hs]
+  omega
+
+/-! ### (d) the nonce sequence -/
+
+/-- the AEAD invocations of the pure look-ahead loop, in order: (nonce, last flag, plaintext);
+    same recursion as `encLoop` -/
+def encCalls : Nat → Bytes → Bool → List Bytes → List (Nat × Bool × Bytes)
+  | ctr, prev, _, [] => [(ctr, true, prev)]
+  | ctr, prev, done, r :: rs =>
+    if r.length ≠ 0 && done then []
+    else if (done || r.length == 0) then [(ctr, true, prev)]
+    else (ctr, false, prev) :: encCalls (ctr+1) r false rs
+
+/-- the nonces of the emitted records; same recursion as `encLoop` -/
+def encNonces : Nat → Bool → List Bytes → List Nat
+  | ctr, _, [] => [ctr]
+  | ctr, done, r :: rs =>
+    if r.length ≠ 0 && done then []
+    else if (done || r.length == 0) then [ctr]
+    else ctr :: encNonces (ctr+1) false rs
+
+def encryptCalls (reads : List Bytes) : List (Nat × Bool × Bytes) :=
+  match reads with
+  | [] => encCalls 0 [] true []
+  | r :: rs => encCalls 0 r (r.length == 0) rs
+
+def encryptNonces (reads : List Bytes) : List Nat :=
+  match reads with
+  | [] => encNonces 0 true []
+  | r :: rs => encNonces 0 (r.length == 0) rs
+
+/-- a record as a function of its AEAD invocation -/
+def recordOf (A : Aead) (key aad : Bytes) (c : Nat × Bool × Bytes) : Bytes :=
+  record A key aad (be64 c.1) c.1 c.2.1 c.2.2
+
+theorem encCalls_nonces : ∀ (rs : List Bytes) (ctr : Nat) (prev : Bytes) (done : Bool),
+    (encCalls ctr prev done rs).map (·.1) = encNonces ctr done rs := by
+  intro rs
+  induction rs with
+  | nil => intro _ _ _; rfl
+  | cons r rs ih =>
+    intro ctr prev done
+    simp only [encCalls, encNonces]
+    split
+    · rfl
+    · split
+      · rfl
+      · simp [ih]
+
+/-- the output of the pure loop is the concatenation of its records, each sealed once under its nonce -/
+theorem encLoop_calls (A : Aead) (key aad : Bytes) : ∀ (rs : List Bytes) (ctr : Nat) (prev : Bytes) (done : Bool),
+    (encLoop A key aad ctr prev done rs).1 = ((encCalls ctr prev done rs).map (recordOf A key aad)).flatten := by
+  intro rs
+  induction rs with
+  | nil => intro _ _ _; simp [encLoop, encCalls, recordOf]
+  | cons r rs ih =>
+    intro ctr prev done
+    simp only [encLoop, encCalls]
+    split
+    · rfl
+    · split
+      · rename_i h; simp [recordOf, h]
+      · rename_i h
+        have hd : done = false := by cases done <;> simp_all
+        have hr : (r.length == 0) = false := by cases hh : (r.length == 0) <;> simp_all
+        simp [recordOf, hd, hr, ih]
+
+/-- **(d)** the nonces used from counter `ctr` on are `ctr, ctr+1, …` without gap or repetition -/
+theorem encNonces_range' : ∀ (rs : List Bytes) (ctr : Nat) (done : Bool),
+    encNonces ctr done rs = List.range' ctr (encNonces ctr done rs).length := by
+  intro rs
+  induction rs with
+  | nil => intro _ _; rfl
+  | cons r rs ih =>
+    intro ctr done
+    simp only [encNonces]
+    split
+    · rfl
+    · split
+      · rfl
+      · rw [List.length_cons, List.range'_succ, ← ih]
+
+theorem encryptCalls_nonces (reads : List Bytes) : (encryptCalls reads).map (·.1) = encryptNonces reads := by
+  cases reads with
+  | nil => rfl
+  | cons r rs => exact encCalls_nonces rs 0 r _
+
+theorem encryptChunks_calls (A : Aead) (key aad : Bytes) (reads : List Bytes) :
+    (encryptChunks A key aad reads).1 = ((encryptCalls reads).map (recordOf A key aad)).flatten := by
+  cases reads with
+  | nil => exact encLoop_calls A key aad [] 0 [] true
+  | cons r rs => exact encLoop_calls A key aad rs 0 r _
+
+/-- **(d)** a whole encryption uses the nonces `0, 1, …, n-1` in order, `n` = number of records -/
+theorem encryptNonces_range (reads : List Bytes) : encryptNonces reads = List.range (encryptNonces reads).length := by
+  rw [List.range_eq_range']
+  cases reads with
+  | nil => rfl
+  | cons r rs => exact encNonces_range' rs 0 _
+
+theorem encryptNonces_nodup (reads : List Bytes) : (encryptNonces reads).Nodup := by
+  rw [encryptNonces_range]; exact List.nodup_range
+
+/-- the plaintexts sealed are the chunks of the file, in order -/
+theorem encCalls_chunks : ∀ (rs : List Bytes) (ctr : Nat) (prev : Bytes), wellFormedReads rs →
+    (encCalls ctr prev false rs).map (·.2.2) = prev :: chunksOf rs := by
+  intro rs
+  induction rs with
+  | nil => intro _ _ _; rfl
+  | cons r rs ih =>
+    intro ctr prev hwf
+    by_cases hr : r.length = 0
+    · have : rs = [] := hwf.1 hr
+      subst this
+      simp [encCalls, chunksOf, hr]
+    · have hb : (r.length == 0) = false := by simpa using hr
+      simp [encCalls, chunksOf, hr, hb, ih (ctr+1) r (hwf.2 hr)]
+
+theorem encryptCalls_chunks (reads : List Bytes) (hwf : wellFormedReads reads) :
+    (encryptCalls reads).map (·.2.2) = fileChunks reads := by
+  cases reads with
+  | nil => rfl
+  | cons r rs =>
+    by_cases hr : r.length = 0
+    · have hrs : rs = [] := hwf.1 hr
+      subst hrs
+      have hrn : r = [] := List.eq_nil_of_length_eq_zero hr
+      subst hrn
+      rfl
+    · have hb : (r.length == 0) = false := by simpa using hr
+      simp only [encryptCalls, hb]
+      rw [encCalls_chunks rs 0 r (hwf.2 hr)]
+      simp [fileChunks, chunksOf, hr]
+
+/-- the AEAD invocations behind any conforming stream (`serialize`): chunk `i` under nonce `ctr + i` -/
+def serCalls : Nat → List Bytes → List (Nat × Bool × Bytes)
+  | _, [] => []
+  | ctr, [c] => [(ctr, true, c)]
+  | ctr, c :: c' :: cs => (ctr, false, c) :: serCalls (ctr+1) (c' :: cs)
+
+/-- **(d), `serialize` form**: the `i`-th record of `serialize … ctr cl` is sealed with nonce `ctr + i`,
+    carries chunk `i`, and only the final one has the last flag -/
+theorem serialize_nonces (A : Aead) (key aad : Bytes) (cf : Nat → Bytes) : ∀ (cl : List Bytes) (ctr : Nat),
+    serialize A key aad cf ctr cl =
+        ((serCalls ctr cl).map (fun c => record A key aad (cf c.1) c.1 c.2.1 c.2.2)).flatten ∧
+    (serCalls ctr cl).map (·.1) = List.range' ctr cl.length ∧
+    (serCalls ctr cl).map (·.2.2) = cl ∧
+    (serCalls ctr cl).map (·.2.1) = List.replicate (cl.length - 1) false ++ (if cl = [] then [] else [true]) := by
+  intro cl
+  induction cl with
+  | nil => intro _; simp [serialize, serCalls]
+  | cons c rest ih =>
+    intro ctr
+    cases rest with
+    | nil => simp [serialize, serCalls]
+    | cons c' cs' =>
+      obtain ⟨h1, h2, h3, h4⟩ := ih (ctr+1)
+      refine ⟨?_, ?_, ?_, ?_⟩
+      · simp only [serialize, serCalls, List.map_cons, List.flatten_cons, h1]
+      · simp only [serCalls, List.map_cons, h2, List.length_cons, List.range'_succ]
+      · simp only [serCalls, List.map_cons, h3]
+      · simp only [serCalls, List.map_cons, h4]
+        simp [List.replicate_succ]
+
 end Kestrel.EncIO
